@@ -15,6 +15,10 @@ from eos.eve_obj.buff_template import WarfareBuffTemplate
 from eos.eve_obj.modifier import DogmaModifier
 from eos.item.charge import Autocharge
 from eos.item_container import SlotTakenError
+from eos.item.exception import NoSuchAbilityError, NoSuchSideEffectError
+from eos.eve_obj.type import AbilityData
+import eos.item.booster as booster_mod
+import math
 from eos.source import Source
 
 from eosenv import MemCacheHandler, parse_q
@@ -27,7 +31,7 @@ CLASSES = {
 }
 SLOT_ATTR = {'ship': 'ship', 'character': 'character', 'stance': 'stance', 'beacon': 'effect_beacon'}
 
-DOCUMENTED = (TypeError, ValueError, KeyError, IndexError, SlotTakenError)
+DOCUMENTED = (TypeError, ValueError, KeyError, IndexError, SlotTakenError, NoSuchAbilityError, NoSuchSideEffectError)
 
 ORIG_PENALTY_BASE = cmap.PENALTY_BASE
 
@@ -40,7 +44,7 @@ ALLOWED = {
     'requip': ('TypeError', 'ValueError'), 'rremove': ('ValueError', 'IndexError'),
     'rfree': ('ValueError', 'IndexError'),
     'fladd': ('ValueError',), 'flrm': ('KeyError',), 'ssadd': ('ValueError',), 'ssrm': ('KeyError',),
-    'read': ('KeyError',),
+    'read': ('KeyError',), 'setside': ('NoSuchSideEffectError',), 'setability': ('NoSuchAbilityError',),
 }
 
 
@@ -109,7 +113,7 @@ class Impl:
             return self.handle(t)
         except DOCUMENTED as e:
             name = type(e).__name__
-            if type(e) not in (TypeError, ValueError, KeyError, IndexError, SlotTakenError):
+            if type(e) not in DOCUMENTED:
                 return 'exn Internal:' + name
             if name not in ALLOWED.get(t[0], ()):
                 return 'exn Internal:' + name      # not documented for this call
@@ -149,7 +153,8 @@ class Impl:
             _, src, tid, grp, cat, dflt = t
             self.ch(int(src))
             self.pending[int(src)]['types'][int(tid)] = dict(
-                group_id=opt(grp), category_id=opt(cat), default=opt(dflt), attrs={}, effects=[], skills={})
+                group_id=opt(grp), category_id=opt(cat), default=opt(dflt), attrs={}, effects=[], skills={},
+                abilities={})
             return 'ok'
         if c == 'u_tattr':
             _, src, tid, aid, v = t
@@ -162,6 +167,10 @@ class Impl:
         if c == 'u_tskill':
             _, src, tid, sk, lvl = t
             self.pending[int(src)]['types'][int(tid)]['skills'][int(sk)] = int(lvl)
+            return 'ok'
+        if c == 'u_tability':
+            _, src, tid, aid = t
+            self.pending[int(src)]['types'][int(tid)]['abilities'][int(aid)] = AbilityData(0, math.inf)
             return 'ok'
         if c == 'u_buff':
             _, src, bid, flt, extra, tgt, op, agg = t
@@ -181,7 +190,7 @@ class Impl:
                 ch.mktype(tid, group_id=ty['group_id'], category_id=ty['category_id'], attrs=ty['attrs'],
                           effects=[effs[e] for e in ty['effects'] if e in effs],
                           default_effect=effs.get(ty['default']) if ty['default'] is not None else None,
-                          required_skills=ty['skills'])
+                          required_skills=ty['skills'], abilities_data=ty['abilities'])
             self.sources[src] = Source('src%d' % src, ch)
             return 'ok'
         if c == 'new':
@@ -289,6 +298,32 @@ class Impl:
             effs = self.items[int(t[1])].effects
             return ('effects ' + ' '.join('%d:%d' % (e, 1 if d.status else 0)
                                           for e, d in sorted(effs.items()))).rstrip()
+        if c == 'sideeffects':
+            se = self.items[int(t[1])].side_effects
+            return ('sideeffects ' + ' '.join('%d:%s:%d' % (e, qout(d.chance), 1 if d.status else 0)
+                                              for e, d in sorted(se.items()))).strip()
+        if c == 'setside':
+            self.items[int(t[1])].set_side_effect_status(int(t[2]), t[3] == '1')
+            return 'ok'
+        if c == 'abilities':
+            ab = self.items[int(t[1])].abilities
+            return ('abilities ' + ' '.join('%d:%d' % (a, 1 if st else 0) for a, st in sorted(ab.items()))).strip()
+        if c == 'setability':
+            self.items[int(t[1])].set_ability_status(int(t[2]), t[3] == '1')
+            return 'ok'
+        if c == 'randomize':
+            stream = iter([float(parse_q(x)) for x in t[2:]])
+            old = booster_mod.random
+            booster_mod.random = lambda: next(stream)
+            try:
+                self.items[int(t[1])].randomize_side_effects()
+            finally:
+                booster_mod.random = old
+            return 'ok'
+        if c == 'stats':
+            return self.stats_dump(int(t[1]))
+        if c == 'validate':
+            return self.validate_dump(int(t[1]))
         if c == 'item':
             return self.item_dump(int(t[1]))
         if c == 'fitdump':
@@ -325,7 +360,9 @@ class Impl:
         if obj is None:
             return 'item %d absent' % i
         st = obj.state
-        autos = ','.join('%d>%d' % (e, a._type_id) for e, a in sorted(obj.autocharges.items()))
+        autos = ','.join('%d>%d:%d:%s' % (e, a._type_id, 1 if a._is_loaded else 0,
+                                          '+'.join(map(str, sorted(a._running_effect_ids))))
+                         for e, a in sorted(obj.autocharges.items()))
         cached = obj.attrs._MutableAttrMap__modified_attrs
         return 'item %d cont=%s fit=%s state=%s loaded=%d running=%s target=%s charge=%s autos=%s cached=%s' % (
             i, self.place(obj), self.fid(obj._fit), '-' if st is None else int(st),
@@ -359,6 +396,39 @@ class Impl:
             s(fit.skills), skillmap, s(fit.implants), s(fit.boosters), s(fit.subsystems), s(fit.rigs),
             s(fit.drones), s(fit.fighters), r(fit.modules.high), r(fit.modules.mid), r(fit.modules.low),
             ssid, flid)
+
+    # -- implementation-only observations (not understood by the model driver) -------
+    def stats_dump(self, f):
+        st = self.fits[f].stats
+        out = []
+
+        def g(name, fn):
+            try:
+                v = fn()
+                out.append('%s=%s' % (name, v if not isinstance(v, float) else repr(round(v, 9))))
+            except Exception as e:  # noqa
+                out.append('%s=!%s' % (name, type(e).__name__))
+        for r in ('cpu', 'powergrid', 'calibration', 'dronebay', 'drone_bandwidth'):
+            g(r + '.used', lambda r=r: getattr(st, r).used)
+            g(r + '.output', lambda r=r: getattr(st, r).output)
+        for r in ('turret_slots', 'launcher_slots', 'launched_drones', 'high_slots', 'mid_slots', 'low_slots',
+                  'rig_slots', 'subsystem_slots', 'fighter_squads'):
+            g(r, lambda r=r: (getattr(st, r).used, getattr(st, r).total))
+        g('dps', lambda: tuple(round(x, 9) for x in st.get_dps()))
+        g('hp', lambda: tuple(round(x, 9) for x in st.hp))
+        return 'stats %d %s' % (f, ' '.join(out))
+
+    def validate_dump(self, f):
+        from eos import ValidationError
+        try:
+            self.fits[f].validate()
+            return 'validate %d ok' % f
+        except ValidationError as e:
+            data = e.args[0]
+            items = []
+            for it, errs in data.items():
+                items.append('%s:%s' % (self.iid(it), ','.join('%d=%s' % (int(k), tuple(v)) for k, v in sorted(errs.items()))))
+            return 'validate %d %s' % (f, ' '.join(sorted(items)))
 
     def regs_dump(self, s):
         ss = self.sss.get(s)
